@@ -7,7 +7,7 @@
 #include "gram.h"
 #include "oracle.h"
 
-#define P_MAXTOK 48
+#define P_MAXTOK 80
 static int p_n;                       /* token count */
 static int p_sym[P_MAXTOK];           /* symbol index of each token (concrete per path) */
 static int p_code[P_MAXTOK];          /* code delivered to yaep (may be symbolic) */
@@ -291,7 +291,7 @@ static const char *const near_bases[][4] = {
   /* G37 */ { "abcdefx", "abcdeffx", "abcdex", "abcdef" }, /* G38 */ { "pijqrisviw", "tkutijuris", "piqriu", "vkwtiw" },
   /* G39 */ { "b", "bx", 0, 0 },
   /* G40 */ { "xa", "xab", 0, 0 }, /* G41 */ { "ab", "atb", "aqb", "arb" }, /* G42 */ { "piqrisviw", "mijnyiz", "tiuviwyizminpiq", "piz" },
-  /* G43 */ { "aiobipcijq", "nizmiylix", "aiz", "kiwhivgiu" }, /* G44 */ { "aaaaa", "aaaaaaa", 0, 0 },
+  /* G43 */ { "aiobipcijq", "nizmiylix", "aiz", "kiwhivgiu" }, /* G44 */ { "aaaaa", "aaaaaaa", 0, 0 }, /* G45 */ { "", 0, 0, 0 }, /* G46 */ { "bzbzb", "zzb", 0, 0 }, /* G47 */ { "aiobipNiZ", "NiZMiY", 0, 0 },
 };
 /* input family REP(m): m fragments, each chosen by the solver from the grammar's list, then a tail - long inputs with
    many repeated fragments (the goto cache and the dynamic-lookahead context table only matter there) */
@@ -346,6 +346,7 @@ static void p_setup (void)
   int gi = (int) sx_param ("grammar", 0), len = (int) sx_param ("len", 2), first = (int) sx_param ("first", -1), base = (int) sx_param ("base", -1);
   g_select (&catalogue[gi]);
   p_again = (int) sx_param ("again", 0);
+  g_pad = (int) sx_param ("pad", 0);
   if (sx_param ("rep", 0) > 0) p_input_rep ((int) sx_param ("rep", 0), (int) sx_param ("nfrag", 0), (int) sx_param ("frag0", -1));
   else if (base >= 0) p_input_near (gi, base, (int) sx_param ("edits", 1));
   else p_input_all (len, first);
